@@ -202,7 +202,10 @@ type C18Case struct {
 	// symlink2 (a link to a link); symparent (a symbolic link among the parent components);
 	// slash (trailing slash); dots ("/./" and "//" inside); relative (relative to the
 	// working directory of the process); dot, dotslash, dotdot (".", "./", "./.": the
-	// directory is the working directory; at most one of the two paths).
+	// directory is the working directory); rel_parent, rel_dotparent, rel_updown, rel_sibling
+	// ("p", "./p", "reports/../p", "../p": relative with a directory component, the working
+	// directory being the parent resp. a sibling). At most one of the two paths has a shape
+	// that decides the working directory.
 	PluginPath string `json:"plugin_path,omitempty"`
 	ConfPath   string `json:"conf_path,omitempty"`
 }
@@ -218,7 +221,24 @@ func isSpecialKind(k string) bool {
 	return false
 }
 
-var pathShapes = []string{"", "", "", "symlink", "symlink2", "symparent", "slash", "dots", "relative", "dot", "dotslash", "dotdot"}
+var pathShapes = []string{"", "", "", "symlink", "symlink2", "symparent", "slash", "dots", "relative", "dot", "dotslash", "dotdot",
+	"rel_parent", "rel_dotparent", "rel_updown", "rel_sibling"}
+
+// chdirFor: shapes for which the harness changes the working directory of the process, and
+// into which directory below the case root ("" = the root itself; name = the directory the
+// path is for). rel_parent "p", rel_dotparent "./p", rel_updown "reports/../p" are given
+// relative to the parent of the directory, rel_sibling "../p" relative to a sibling.
+func chdirFor(shape, name string) (dir string, ok bool) {
+	switch shape {
+	case "dot", "dotslash", "dotdot":
+		return name, true
+	case "rel_parent", "rel_dotparent", "rel_updown":
+		return "", true
+	case "rel_sibling":
+		return "reports", true
+	}
+	return "", false
+}
 
 // isDotShape: the path is ".", "./" or "./." — the directory is the working directory of the
 // process (the harness changes into it for the duration of Start).
@@ -558,7 +578,8 @@ func genC18(t *rapid.T) C18Case {
 	if c.NoPluginDir && isDotShape(c.PluginPath) {
 		c.PluginPath = ""
 	}
-	if isDotShape(c.ConfPath) && (isDotShape(c.PluginPath) || c.NoConfDir) {
+	_, pcd := chdirFor(c.PluginPath, "p")
+	if _, ccd := chdirFor(c.ConfPath, "c"); ccd && (pcd || (c.NoConfDir && isDotShape(c.ConfPath))) {
 		c.ConfPath = "" // one working directory per process
 	}
 
@@ -739,6 +760,11 @@ func validate(c C18Case) error {
 	}
 	if c.SyncFn != "" && c.SyncFn != "fail_before" && c.SyncFn != "fail_after" {
 		return fmt.Errorf("unknown runtime_syncfn %q", c.SyncFn)
+	}
+	if _, a := chdirFor(c.PluginPath, "p"); a {
+		if _, b := chdirFor(c.ConfPath, "c"); b {
+			return fmt.Errorf("only one of the two paths can decide the working directory")
+		}
 	}
 	if isDotShape(c.PluginPath) && isDotShape(c.ConfPath) {
 		return fmt.Errorf("only one of the two directories can be the working directory")
